@@ -34,7 +34,8 @@ CONSTANTS Sigma,        \* bytes of the model
 VARIABLES cfg,     \* [pats, kind, hay, s, e, v, b, algo]
           pc,      \* "new" | "main" | "final" | "done"
           cur,     \* window position
-          carry,   \* TRUE: prev0..2 hold the previous window's results; FALSE: all-ones
+          carry,   \* prev0..2: -1 = all-ones (reset); otherwise the offset just past the
+                   \* bytes whose per-position results the carry vectors hold
           res,     \* result
           loads    \* history: the last vector load <<from, to>> (hidden by VIEW)
 vars == <<cfg, pc, cur, carry, res, loads>>
@@ -84,10 +85,13 @@ MaskHit(b, k, x) ==
 (* candidate(cur): bit (position p, bucket b) of the AND of the shifted      *)
 (* per-position results; bytes before `cur` come from the carry, which is    *)
 (* all-ones (= "matches") when it was reset                                  *)
-Candidate(c, real, p, b) ==
+Candidate(c, cp, p, b) ==
     \A k \in 0..(N - 1) :
         LET q == p + k IN
-        IF q < c /\ ~real THEN TRUE ELSE MaskHit(b, k, H[q + 1])
+        IF q >= c THEN MaskHit(b, k, H[q + 1])
+        ELSE IF cp = -1 THEN TRUE
+        \* lane (V-1) - (c-1-q) of the carry: the byte (c-q) before the carry's end
+        ELSE MaskHit(b, k, H[(cp - (c - q)) + 1])
 
 (* verify64 / verify_bucket: first hit in (position, bucket, bucket order)   *)
 VerifyBucket(p, b) ==
@@ -123,7 +127,7 @@ Init ==
     /\ \E pats \in NonEmptySeqs(NonEmptySeqs(Sigma, MaxPatLen), MaxPats), kind \in Kinds :
          cfg = [pats |-> pats, kind |-> kind, hay |-> <<>>, s |-> 0, e |-> 0, v |-> 0, b |-> 0,
                 algo |-> "none"]
-    /\ pc = "new" /\ cur = 0 /\ carry = FALSE /\ res = None /\ loads = <<0, 0>>
+    /\ pc = "new" /\ cur = 0 /\ carry = -1 /\ res = None /\ loads = <<0, 0>>
 
 (* Searcher::find_in *)
 New ==
@@ -140,7 +144,7 @@ New ==
             /\ IF teddy
                THEN pc' = "main" /\ cur' = s + (n - 1) /\ res' = None
                ELSE pc' = "done" /\ cur' = s /\ res' = None
-    /\ carry' = FALSE /\ loads' = <<0, 0>>
+    /\ carry' = -1 /\ loads' = <<0, 0>>
 
 (* the Rabin-Karp answer is computed in the state where cfg is set *)
 RKDone ==
@@ -154,16 +158,16 @@ Main ==
        THEN /\ loads' = <<cur, cur + cfg.v>>
             /\ LET m == Window(cur, carry) IN
                IF m # None THEN res' = m /\ pc' = "done" /\ UNCHANGED <<cur, carry>>
-               ELSE cur' = cur + cfg.v /\ carry' = TRUE /\ UNCHANGED <<res, pc>>
+               ELSE cur' = cur + cfg.v /\ carry' = cur + cfg.v /\ UNCHANGED <<res, pc>>
        ELSE pc' = "final" /\ UNCHANGED <<cur, carry, res, loads>>
     /\ UNCHANGED cfg
 
 Final ==
     /\ pc = "final"
     /\ IF cur < cfg.e
-       THEN /\ cur' = cfg.e - cfg.v /\ carry' = FALSE
+       THEN /\ cur' = cfg.e - cfg.v /\ carry' = -1      \* prev0..2 = splat(0xFF)
             /\ loads' = <<cfg.e - cfg.v, cfg.e>>
-            /\ res' = Window(cfg.e - cfg.v, FALSE)
+            /\ res' = Window(cfg.e - cfg.v, -1)
        ELSE UNCHANGED <<cur, carry, res, loads>>
     /\ pc' = "done"
     /\ UNCHANGED cfg
@@ -186,6 +190,9 @@ MatchInSpan == res # None => res[2] >= cfg.s /\ res[3] <= cfg.e
 
 (* the windows never skip a start position: when the main loop is left,     *)
 (* everything before cur - (N-1) has been examined                          *)
+(* whenever the carry is used it describes the bytes right before `cur`     *)
+CarryAdjacent == (pc = "main" /\ carry # -1) => carry = cur
+
 Coverage == pc = "final" => cur > cfg.e - cfg.v /\ cur - (N - 1) <= cfg.e
 
 =============================================================================
